@@ -63,6 +63,9 @@ class Failure:
         self.signature = signature      # class signature used for known-findings matching
         self.what = what                # human readable, one line
         self.payload = payload          # JSON-able: enough to re-execute alone (replay)
+        # the cases the same harness process executed BEFORE this one (inputs, in order; not serialised unless needed):
+        # lets a rejected case that depends on state the library keeps between calls be reproduced in its context
+        self.before = None
 
 
 class Ctx:
@@ -334,6 +337,23 @@ class Ctx:
                 except Machinery as e:
                     self.log("replay machinery failed:", e)
                     ok = False
+                in_context = getattr(confirm, "in_context", None)
+                if not ok and in_context is not None and f.before:
+                    # not reproducible alone: does it reproduce when the cases before it are executed first, in one fresh process
+                    # (state the library keeps between calls)?  try a short history first
+                    for k in (8, 64, len(f.before)):
+                        hist = f.before[-k:]
+                        try:
+                            ok = in_context(hist, f)
+                        except Machinery as e:
+                            self.log("replay-in-context machinery failed:", e)
+                            ok = False
+                        if ok:
+                            f.payload["context"] = hist
+                            f.what += " ; reproduces only after the %d case(s) executed before it in the same process (state kept between calls)" % len(hist)
+                            break
+                        if k >= len(f.before):
+                            break
                 if not ok:
                     unconfirmed += 1
                     self.log("UNREPRODUCED (not reported as violation):", f.what)
